@@ -401,6 +401,21 @@ fn cmd_replay(a: &Args) -> i32 {
     if a.has("trace-verbose") {
         ev::TRACE_VERBOSE.store(1, std::sync::atomic::Ordering::Relaxed);
     }
+    if a.u64("dump-after", 0) > 0 {
+        // a scenario that never finishes: print what has been recorded so far and give up
+        let secs = a.u64("dump-after", 0);
+        std::thread::spawn(move || {
+            std::thread::sleep(std::time::Duration::from_secs(secs));
+            if let Some((_, _, _, _, _, log)) = CURRENT.lock().unwrap_or_else(|e| e.into_inner()).clone() {
+                let evs = log.snapshot();
+                println!("=== partial event log after {secs} s ({} events) ===", evs.len());
+                for l in trace::render(&evs) {
+                    println!("{l}");
+                }
+            }
+            std::process::exit(3);
+        });
+    }
     let out = sim::run_scenario(&sc, erased);
     if a.has("canon") {
         for l in trace::canon_trace(&out.log, &out.ids) {
